@@ -4,7 +4,7 @@ from mc.engine import Sub, HSystem, hsub, InternalError
 from mc.common import ramp, expander, single_bits, DATA, xor
 from mc.refs import stream as RS
 
-LENS = [0, 1, 63, 64, 65, 127, 128, 129, 191, 192, 193]
+LENS = [0, 1, 63, 64, 65, 127, 128, 129, 191, 192, 193, 319, 320, 321, 577, 1088]
 
 
 def mk(cipher, key, rounds):
@@ -161,7 +161,7 @@ def run_rc4keys(ctx, pt):
 
 
 class RC4Sys(HSystem):
-    SIZES = (0, 1, 2, 3, 255, 256, 257)
+    SIZES = (0, 1, 2, 3, 255, 256, 257, 600)
 
     def __init__(self, key):
         self.key = key
@@ -215,7 +215,7 @@ def selftest():
 def subchecks():
     return [
         Sub('rounds-lengths', pts_rounds, run_rounds, engine='P',
-            bound='{Salsa20, ChaCha} x key size {128,256} x rounds {2,4,..,20} x 2 keys x 2 nonces (quick: subset) x |M| in {0,1,63,64,65,127,128,129,191,192,193}: enc vs reference, length, dec(enc), prefix property for every ordered pair of lengths'),
+            bound='{Salsa20, ChaCha} x key size {128,256} x rounds {2,4,..,20} x 2 keys x 2 nonces (quick: subset) x |M| in {0,1,63,64,65,127,128,129,191,192,193,319,320,321,577,1088}: enc vs reference, length, dec(enc), prefix property for every ordered pair of lengths'),
         Sub('keys-nonces', pts_keys, run_keys, engine='P', exhaustive=False,
             bound='rounds {8,20}: single-bit key family of each size (quick: every 8th) and single-bit nonce family (quick: every 4th), |M|=65'),
         Sub('salsa-core', pts_hash, run_hash, engine='P', exhaustive=False, bound='Salsa20().hash on the 512-bit single-bit family + patterns (quick: every 6th)'),
@@ -223,7 +223,7 @@ def subchecks():
             bound='via the guarded hook: keystream started at block 2^32-2, 2^32-1, 2^32, 2^33-1, 2^48+5, 2^64-2; 4 (2) blocks vs reference with the 64-bit counter split over two words'),
         Sub('rc4-keys', pts_rc4keys, run_rc4keys, engine='P', bound='every key length 1..256 (ramp) + 3 patterns at {1,5,16,255,256}: key-schedule state, 40 bytes, dec(enc), empty message'),
         hsub('rc4-histories', systems, lambda tier: 3,
-             bound='one RC4 object; events enc(m) |m| in {0,1,2,3,255,256,257}, keystream(0/1/256), dec(5 bytes); all sequences to depth 3 for 2 keys (thorough 4 keys), deduplicated by (S,i,j); output = reference stream slice, state = reference state after the consumed total'),
+             bound='one RC4 object; events enc(m) |m| in {0,1,2,3,255,256,257,600}, keystream(0/1/256), dec(5 bytes); all sequences to depth 3 for 2 keys (thorough 4 keys), deduplicated by (S,i,j); output = reference stream slice, state = reference state after the consumed total'),
     ]
 
 
